@@ -34,7 +34,7 @@ RULE_C07 = ('operation scripts over up to 4 registers holding kll_sketch<int64_t
 RULE_C08 = ('exhaustive enumeration on the implementation of ALL outcomes of the internal coin flips for short histories (updates and merges over registers; '
             'k in {8,9}; m <= 8 coins quick, <= 13 thorough) through scripted coins: for every query point the sum over the 2^m outcomes of the rank numerators '
             'must equal 2^m * true rank, every outcome must draw exactly m coins (enumeration, not proof; the theorem is Properties_C08_kll); about a third of the histories are merge trees of depth >= 2 over 3 distinct k whose deepest operand is in estimation mode, and every outcome is observed: the published rank error must be the documented function of min_k_ and min_k the minimum over the merge tree (KllMinK.mk_spec). '
-            'non-trivial = every such case (m >= 1)')
+            '3 histories (12 thorough) are merges of two estimation-mode sketches (k = 8) in which general_compress compacts an odd level above an already compacted one (left-over item moved down), chosen with the size-only simulation. non-trivial = every such case (m >= 1)')
 TRUSTED = ['KLL model coq/KllDefs.v + coq/SortedView.v written by hand from kll_sketch_impl.hpp / kll_helper_impl.hpp / quantiles_sorted_view_impl.hpp; std::sort, std::merge, '
            'std::lower_bound/upper_bound modelled by insertion sort, a stable merge and a linear scan (same results on the sorted ranges they are applied to)',
            'coin flips of random_utils::random_bit() are supplied by the harness through the DATASKETCHES_VERIF hook and replayed by the model (their generation is not modelled)',
@@ -69,7 +69,7 @@ def total_capacity(k, nl):
 
 class Sz:
     def __init__(self, k):
-        self.k = k; self.cap = k; self.sz = [0]; self.n = 0; self.flips = 0
+        self.k = k; self.cap = k; self.sz = [0]; self.n = 0; self.flips = 0; self.gc_odd_shifted = False
     def copy(self):
         c = Sz(self.k); c.cap = self.cap; c.sz = list(self.sz); c.n = self.n; c.flips = 0
         return c
@@ -95,7 +95,7 @@ class Sz:
         if len(o.sz) >= 2:
             prov = max(len(self.sz), len(o.sz))
             work = [self.sz[0]] + [(self.sz[i] if i < len(self.sz) else 0) + (o.sz[i] if i < len(o.sz) else 0) for i in range(1, prov)]
-            cnt = sum(work); tgt = total_capacity(self.k, prov); nl = prov; cur = 0; out = []
+            cnt = sum(work); tgt = total_capacity(self.k, prov); nl = prov; cur = 0; out = []; compacted = False
             while True:
                 if cur == nl - 1 and len(work) < cur + 2:
                     work.append(0)
@@ -103,6 +103,9 @@ class Sz:
                 if cnt < tgt or raw < level_capacity(self.k, nl, cur):
                     out.append(raw)
                 else:
+                    if compacted and raw % 2 == 1:
+                        self.gc_odd_shifted = True      # general_compress moves the left-over item of an odd level DOWN (output position != input position)
+                    compacted = True
                     half = raw // 2
                     out.append(raw - 2 * half); work[cur + 1] += half; cnt -= half; f += 1
                     if cur == nl - 1:
@@ -560,9 +563,43 @@ def history(rng, max_m):
             return ops, m, 0, vals[0]
     return None
 
+def gc_odd_history(rng, max_m):
+    """merge of two estimation-mode sketches (k = 8) in which general_compress compacts an ODD level above a level it has already
+    compacted in the same pass (the left-over item is moved to a lower output position); found with the size-only simulation"""
+    for _ in range(400):
+        kind = rng.choice([0, 0, 1, 2])
+        na, nb = (rng.randrange(10, 20), rng.randrange(19, 28)) if rng.random() < 0.8 else (rng.randrange(10, 60), rng.randrange(10, 60))
+        a = Sz(8); b = Sz(8); m = 0
+        for _ in range(na): m += a.internal_update()
+        for _ in range(nb): m += b.internal_update()
+        if len(a.sz) < 2 or len(b.sz) < 2:
+            continue
+        m += a.merge(b)
+        if not a.gc_odd_shifted or not (1 <= m <= max_m):
+            continue
+        xa = [x % 997 for x in stream(rng, na)]; xb = [x % 997 for x in stream(rng, nb)]
+        ops = [[1, 0, kind, 8], [1, 1, kind, 8]] + [[2, 0, x] for x in xa] + [[2, 1, x] for x in xb] + [[4, 0, 1, 0]]
+        return ops, m, 0, xa + xb
+    return None
+
 def gen_c08(rng, tier):
     thorough = tier != 'quick'
     cases = []
+    for j in range(3 if not thorough else 12):
+        hst = gc_odd_history(rng, 6 if not thorough else 9)
+        if hst is None:
+            continue
+        hops, m, qr, vals = hst
+        lo, hi = min(vals), max(vals)
+        pts = sorted(set([lo, lo + 1, hi, hi + 1] + [rng.choice(vals) for _ in range(4)] + sorted(vals)[1:4]))
+        ops = []
+        for c in range(1 << m):
+            ops.append([99, 12345]); ops.append([98] + [(c >> b) & 1 for b in range(m)])
+            ops += hops
+            ops.append([97]); ops.append([5, qr])
+            for x in pts:
+                ops.append([6, qr, x])
+        cases.append(dict(id='kllgcodd%d' % j, ops=ops, tags=['enumeration', 'm=%d' % m, 'merge', 'gc-odd-level-shifted']))
     budget = 60000 if not thorough else 3000000       # total operations
     idx = 0
     while budget > 0 and idx < (14 if not thorough else 60):
